@@ -46,3 +46,10 @@ void* memset(void* dst, int c, size_t n)
 	for (; i < n; ++i) d[i] = (unsigned char)c;
 	return dst;
 }
+
+void* memchr(const void* s, int c, size_t n)
+{
+	const unsigned char* x = (const unsigned char*)s; size_t i;
+	for (i = 0; i < n; ++i) if (x[i] == (unsigned char)c) return (void*)(x + i);
+	return 0;
+}
